@@ -87,7 +87,21 @@ def static_probes(rm: RM, sc) -> Dict[str, int]:
     return p
 
 
-def analyse_run(sc, rm: RM, r, want=None):
+def waiting_summary(r):
+    """Who waits for what at the moment of a deadlock (diagnostic only)."""
+    out = {}
+    try:
+        for sid, s in r.run.world.sims.items():
+            out[sid] = {"progress": repr(s.progress.time), "next": repr(s.next_steps[:2]),
+                        "waiters_on_my_progress": [
+                            (repr(t), repr(sh), bool(p)) for (t, sh, p), f in s.progress._futures
+                            if not f.done()][:4]}
+    except Exception:  # noqa: BLE001
+        pass
+    return out
+
+
+def analyse_run(sc, rm: RM, r, want=None, want_lazy_probe=True):
     """-> (violations by prop, per-run info)"""
     cfg = sc["config"]
     oc = r.outcome
@@ -108,8 +122,17 @@ def analyse_run(sc, rm: RM, r, want=None):
     else:
         info["aborted"] = 1
         if oc[0] == "deadlock":
+            feats = {"phase": oc[1], "lazy": bool(cfg.get("lazy", True)),
+                     "leave_reenter_path": bool(static_probes(rm, sc).get("leave_reenter_path"))}
+            if feats["lazy"] and want_lazy_probe:
+                # does the same execution complete without lazy stepping?
+                sc2 = copy.deepcopy(sc)
+                sc2["config"]["lazy"] = False
+                r2 = runner.execute(sc2, r.sched.spec(), faults=r.faults or None)
+                feats["completes_without_lazy"] = (r2.outcome[0] == "ok")
             viols.setdefault("C05", []).append(
-                {"kind": "deadlock", "features": {"phase": oc[1]}, "detail": {"outcome": oc}})
+                {"kind": "deadlock", "features": feats,
+                 "detail": {"outcome": oc, "waiting": waiting_summary(r)}})
         elif oc[0] == "livelock":
             viols.setdefault("C05", []).append(
                 {"kind": "livelock", "features": {"phase": oc[1]}, "detail": {"outcome": oc}})
@@ -125,6 +148,8 @@ def analyse_run(sc, rm: RM, r, want=None):
                     " ".join(msg.split()[:6])[:50]
                 import re
                 head = re.sub(r"[-\w]*\d[-\w:]*", "#", head)
+                if "incomparable" in msg:
+                    head = "incomparable"
                 viols.setdefault("C05", []).append(
                     {"kind": f"internal:{typ}", "features": {"where": where, "msg": head},
                      "detail": {"outcome": oc, "tb": (r.tb or "")[-1200:]}})
@@ -203,6 +228,11 @@ def run_case(case, prop) -> Dict[str, Any]:
         st["scen_" + k] = st.get("scen_" + k, 0) + n
     digs = []
     reported = set()
+    if any(v is not None for v in rm.verdicts) or rm.unresolved_cycles():
+        # outside the compliance envelope (can only happen while shrinking)
+        st["invalid_scenario"] = 1
+        out["digest"] = "invalid"
+        return out
     for j, sp in enumerate(case["schedules"]):
         r = runner.execute(sc, sp, faults=case.get("faults"))
         out["runs"] += 1
